@@ -101,6 +101,25 @@ Proof.
   eexists. repeat split; vm_compute; reflexivity.
 Qed.
 
+(* a field renamed to "1st": `val 1st: ..` (Kotlin; the same name is printed by TypeScript, Swift and Scala) *)
+Lemma kotlin_digit_name_refuted :
+  exists cfg pd text, dom_C10 CKT pd = true /\ known_C10 CKT [] pd = ["C10-digit-name"%string] /\
+    kt_generate uc_exec cfg pd = Ok text /\ contains_sub (lit "val 1st: String") text = true.
+Proof.
+  exists w_kt_cfg,
+    (w_pd [w_struct [{| fid := {| original := lit "first"; renamed := lit "1st"; via_serde_rename := true |}; fty := RPrim PString;
+                        fcomments := []; has_default := false; fdecs := [] |}]] [] []).
+  eexists. repeat split; vm_compute; reflexivity.
+Qed.
+(* a Rust field `_1x`: Go prints the exported name `1x` *)
+Lemma go_digit_name_refuted :
+  exists cfg pd text, dom_C10 CGO pd = true /\ known_C10 CGO [] pd = ["C10-digit-name"%string] /\
+    go_generate uc_exec cfg pd = Ok text /\ contains_sub (lit "1x string `json:") text = true.
+Proof.
+  exists w_go_cfg, (w_pd [w_struct [{| fid := w_id "_1x"; fty := RPrim PString; fcomments := []; has_default := false; fdecs := [] |}]] [] []).
+  eexists. repeat split; vm_compute; reflexivity.
+Qed.
+
 (* Python, an algebraic enum without variants (reachable from the IR only: the parser rejects tag/content on an enum
    whose variants are all unit or skipped): `Union[]` *)
 Lemma python_empty_union_refuted :
